@@ -589,7 +589,14 @@ def random_history(rng: random.Random, cls, n, names, sep, nops, fault_rate=0.25
         elif r < 0.94:
             op = ["K", rng.choice(V), fault()]
         elif cls == "node" and r < 0.98:
-            op = ["X", rng.choice(V), rng.choice(names + ["zz"]), fault()]
+            nm = rng.choice(names + ["zz"])
+            if rng.random() < 0.35:
+                # a name that is no child's name but SPELLS a path below the node (child/grandchild under some separator),
+                # or a child's name with a separator in front: not a child, so `del p[name]` is a documented no-op
+                a, b = rng.choice(names), rng.choice(names)
+                sp = rng.choice(seps + ["/"])
+                nm = rng.choice([a + sp + b, sp + a, a + sp])
+            op = ["X", rng.choice(V), nm, fault()]
         elif cls == "node":
             op = ["Z", rng.choice(V), rng.choice(seps)]
         else:
